@@ -638,6 +638,17 @@ class C04(Harness):
             "HampelFilter": (HF(window_length=3), "tr"),
             "LogTransformer": (LOGT(), "tr"),
         }
+        # tuners: the search selects a value that differs from the one the caller configured (the series is a line, so
+        # "drift" wins over the configured "mean"); the caller's forecaster must come back as it was passed
+        try:
+            tune = W.load("sktime.forecasting.model_selection._tune")
+            spl = W.load("sktime.forecasting.model_selection._split")
+            ests["ForecastingGridSearchCV"] = (tune.ForecastingGridSearchCV(NF("mean"), spl.SingleWindowSplitter([1], window_length=6), {"strategy": ["mean", "last", "drift"]}, scoring=_AbsErr()), "fc")
+            ests["ForecastingGridSearchCV(pipeline)"] = (tune.ForecastingGridSearchCV(PIPE([("t", LOGT()), ("f", NF("mean"))]), spl.SingleWindowSplitter([1], window_length=6), {"f__strategy": ["mean", "drift"]}, scoring=_AbsErr()), "fc")
+            ests["ForecastingRandomizedSearchCV"] = (tune.ForecastingRandomizedSearchCV(NF("mean"), spl.SingleWindowSplitter([1], window_length=6), {"strategy": ["drift", "last"]}, n_iter=2, random_state=0, scoring=_AbsErr()), "fc")
+        except Exception as e:  # noqa
+            if type(e).__module__.startswith("vf."):
+                raise
         out = {}
 
         def snap(params):
@@ -651,15 +662,23 @@ class C04(Harness):
                     d[k] = id(v) if not isinstance(v, (int, float, str, bool, type(None))) else v
             return d
 
+        def snap2(est_):
+            d = snap(est_.get_params(deep=False))
+            # nested parameters by value (a component that is the same object but was reconfigured in place)
+            for k_, v_ in est_.get_params(deep=True).items():
+                if "__" in k_ and isinstance(v_, (int, float, str, bool, type(None))):
+                    d[k_] = v_
+            return d
+
         for name, (est, kind) in ests.items():
-            before = snap(est.get_params(deep=False))
+            before = snap2(est)
             unfitted_components = [c for v in est.get_params(deep=False).values() if isinstance(v, list) for item in v if isinstance(item, tuple) for c in item if hasattr(c, "is_fitted")]
             rec = {}
             try:
                 r = est.fit(y) if kind == "tr" else est.fit(y, fh=1)
                 rec["returns_self"] = r is est
                 rec["fitted"] = bool(est.is_fitted)
-                after = snap(est.get_params(deep=False))
+                after = snap2(est)
                 rec["params_same"] = sorted(k for k in before if after.get(k) != before[k])
                 # the prototypes the user passed stay unfitted (fit works on clones)
                 if any(getattr(c, "is_fitted", False) for c in unfitted_components):
@@ -755,6 +774,17 @@ class C04(Harness):
         who = d.get("class") or d.get("composite") or d.get("estimator") or ""
         extra = d.get("method") or d.get("param") or ""
         return "%s/%s/%s" % (label, who, extra)
+
+
+class _AbsErr:
+    """mean absolute error as a scoring object (sktime's own metrics call a private scikit-learn helper whose signature changed)"""
+
+    greater_is_better = False
+    name = "abs_err"
+
+    def __call__(self, y_true, y_pred):
+        a, b = list(y_true.values), list(y_pred.values)
+        return sum(abs(u - v) for u, v in zip(a, b)) / len(a)
 
 
 HARNESS = C04()
